@@ -132,6 +132,9 @@ def make_systems(conv="bare", counters=None, which=None):
         "euclid_identity": lambda: S.EuclideanMetricSystem(nld, grad_neg_log_dens=gnld),
         "euclid_diag": lambda: S.EuclideanMetricSystem(nld, grad_neg_log_dens=gnld, metric=np.array([0.5, 2.0, 1.3])),
         "euclid_dense": lambda: S.EuclideanMetricSystem(nld, grad_neg_log_dens=gnld, metric=MDENSE),
+        # metrics that have been used (factor / inverse / capacitance cached) and then rescaled, as e.g. a unit-determinant normalisation does
+        "euclid_rescaled": lambda: S.EuclideanMetricSystem(nld, grad_neg_log_dens=gnld, metric=rescaled_metric("densepd")),
+        "gauss_rescaled": lambda: S.GaussianEuclideanMetricSystem(nld4, grad_neg_log_dens=gnld4, metric=rescaled_metric("lowrank_pd")),
         "gauss_identity": lambda: S.GaussianEuclideanMetricSystem(nld4, grad_neg_log_dens=gnld4),
         "gauss_dense": lambda: S.GaussianEuclideanMetricSystem(nld4, grad_neg_log_dens=gnld4, metric=MDENSE),
         "riem_diag": lambda: S.DiagonalRiemannianMetricSystem(nld, metric_diag, vjp_metric_diagonal_func=vjp_diag, grad_neg_log_dens=gnld),
@@ -148,6 +151,13 @@ def make_systems(conv="bare", counters=None, which=None):
     }
     names = which or list(mk)
     return {n: mk[n]() for n in names}, c
+
+
+def rescaled_metric(kind):
+    import matzoo
+    m, _ = matzoo.make_leaf(np.random.default_rng(11), D, kind)
+    matzoo.touch(m)
+    return m / float(np.exp(m.log_abs_det / D))      # unit determinant
 
 
 def is_constrained(name):
